@@ -16,6 +16,7 @@ import (
 	"log"
 	"os"
 	"path/filepath"
+	"runtime/debug"
 	"sort"
 	"strings"
 	"sync"
@@ -683,4 +684,11 @@ func run(a *hlib.Args, e *hlib.Emitter) error {
 	return nil
 }
 
-func main() { hlib.Main(run) }
+// Every rdb.CreateBatch allocates about 10 MB and every Builder about 1 GB, almost all of it never
+// touched.  With the proportional collector each of them starts a collection and the freed spans
+// are zeroed again on reuse; the collector is therefore driven by a memory limit alone.
+func main() {
+	debug.SetGCPercent(-1)
+	debug.SetMemoryLimit(4 << 30)
+	hlib.Main(run)
+}
